@@ -51,10 +51,15 @@ static SNDFILE *raw_open (int mode, int enc, int end)
 	return md_open (&dev, mode, &info) ;
 }
 
+/* opt_type: the caller's sample type of the transfer that follows. The normalisation setting of that type gets `norm`, the other one the
+** opposite value: the two settings are independent, and a command that mixes them up (or one that runs a signal scan, as
+** SFC_SET_SCALE_FLOAT_INT_READ does, and restores the wrong one) must not go unnoticed. */
+static int opt_type = T_FLOAT ;
+
 static void set_opts (SNDFILE *sf, int norm, int clip, int scale_read, int scale_write)
 {	vl_inlib ++ ;
-	sf_command (sf, SFC_SET_NORM_FLOAT, NULL, norm) ;
-	sf_command (sf, SFC_SET_NORM_DOUBLE, NULL, norm) ;
+	sf_command (sf, SFC_SET_NORM_FLOAT, NULL, opt_type == T_DOUBLE ? ! norm : norm) ;
+	sf_command (sf, SFC_SET_NORM_DOUBLE, NULL, opt_type == T_DOUBLE ? norm : ! norm) ;
 	sf_command (sf, SFC_SET_CLIPPING, NULL, clip) ;
 	if (scale_write >= 0) sf_command (sf, SFC_SET_SCALE_INT_FLOAT_WRITE, NULL, scale_write) ;
 	if (scale_read > 0) sf_command (sf, SFC_SET_SCALE_FLOAT_INT_READ, NULL, scale_read) ;
@@ -168,7 +173,7 @@ static void c02_read_int_file (int enc, int end, int type, int norm)
 	md_set (&dev, bytes, n * bw) ;
 	sf = raw_open (SFM_READ, enc, end) ;
 	if (! sf) { vl_violation (sig ("read|%s|open-failed", enc_name [enc]), "%s", sf_strerror (NULL)) ; goto done ; }
-	set_opts (sf, norm, 0, 0, -1) ;
+	opt_type = type ; set_opts (sf, norm, 0, 1, -1) ;	/* SFC_SET_SCALE_FLOAT_INT_READ is about float files: on an integer file it changes nothing */
 	out = malloc (n * 8) ;
 	if (vl_read (sf, type, 0, out, n) != n)
 		vl_violation (sig ("read|%s|%s|short-read", enc_name [enc], type_names [type]), "could not read %ld items", n) ;
@@ -195,8 +200,11 @@ done :
 
 /* ------------------------------------------------------------------ C02: writing integer and G.711 files */
 
+#define G711_NX 12
+static const double g711_extra [G711_NX] = { 1.0001, 1.25, 1.5, 3.0, 70000.0, 1e10, -1.0001, -1.25, -1.5, -3.0, -70000.0, -1e10 } ;
+
 static void c02_write_int_file (int enc, int end, int type, int norm, int clip)
-{	int bw = enc_bytes [enc], w = enc_w [enc], g711 = (enc == E_ULAW || enc == E_ALAW) ; long n = 0, bad = 0, skipped = 0 ;
+{	int bw = enc_bytes [enc], w = enc_w [enc], g711 = (enc == E_ULAW || enc == E_ALAW) ; long n = 0, bad = 0, skipped = 0, ngrid = 0 ;
 	void *in = NULL ; double *lat = NULL ; SNDFILE *sf ; uint64_t oh = VL_H0 ;
 
 	switch (type)
@@ -213,12 +221,20 @@ static void c02_write_int_file (int enc, int end, int type, int norm, int clip)
 			{	/* inputs on the codec's own index grid (mu-law: s = 4k, 16384 inputs; A-law: s = 16k, 4096 inputs), which reach
 				** every entry of the encode tables and on which the point of rounding cannot matter */
 				int step = enc == E_ULAW ? 4 : 16 ;
-				n = 65536 / step ; lat = malloc (n * sizeof (double)) ;
+				n = 65536 / step ; lat = malloc ((n + G711_NX) * sizeof (double)) ;
 				for (long i = 0 ; i < n ; i++)
 				{	int s = (int) (i - n / 2) * step ;
 					double x = norm ? (double) s / 32767.0 : (double) s ;
 					lat [i] = type == T_FLOAT ? (double) (float) x : x ;
 					}
+				/* and inputs beyond full scale (the encode tables end there): with clipping they saturate, without it the value is
+				** unspecified - but the call must stay inside the tables either way (ASan) */
+				ngrid = n ;
+				for (int k = 0 ; k < G711_NX ; k++)
+				{	double x = g711_extra [k] * (norm ? 1.0 : 32767.0) ;
+					lat [n + k] = type == T_FLOAT ? (double) (float) x : x ;
+					}
+				n += G711_NX ;
 				}
 			else
 				lat = float_lattice (type == T_FLOAT, norm, &n) ;
@@ -230,7 +246,7 @@ static void c02_write_int_file (int enc, int end, int type, int norm, int clip)
 	md_reset (&dev) ;
 	sf = raw_open (SFM_WRITE, enc, end) ;
 	if (! sf) { vl_violation (sig ("write|%s|open-failed", enc_name [enc]), "%s", sf_strerror (NULL)) ; goto done ; }
-	set_opts (sf, norm, clip, 0, -1) ;
+	opt_type = type ; set_opts (sf, norm, clip, 0, -1) ;
 	if (vl_write (sf, type, 0, in, n) != n)
 		vl_violation (sig ("write|%s|%s|short-write", enc_name [enc], type_names [type]), "could not write %ld items", n) ;
 	INLIB (sf_close (sf)) ;
@@ -247,7 +263,13 @@ static void c02_write_int_file (int enc, int end, int type, int norm, int clip)
 					** of truncation (32-bit magnitude vs. 16-bit value) is not documented */
 					if (((int *) in) [i] & 0xFFFF) { skipped ++ ; continue ; }
 					s = ((int *) in) [i] >> 16 ; break ;
-				default : s = (int) (i - n / 2) * (enc == E_ULAW ? 4 : 16) ; break ;
+				default :
+					if (i >= ngrid)
+					{	if (! clip) { skipped ++ ; continue ; }	/* beyond full scale without clipping: unspecified */
+						s = g711_extra [i - ngrid] > 0 ? 32767 : -32768 ;
+						}
+					else s = (int) (i - ngrid / 2) * (enc == E_ULAW ? 4 : 16) ;
+					break ;
 				}
 			e = enc == E_ULAW ? ref_ulaw_encode (s) : ref_alaw_encode (s) ;
 			ok = (e == code) ; snprintf (exp, 80, "code 0x%02x (linear %d)", e, s) ;
@@ -301,7 +323,7 @@ static void c02_float_file_write (int enc, int end, int type, int scale)
 	md_reset (&dev) ;
 	sf = raw_open (SFM_WRITE, enc, end) ;
 	if (! sf) { vl_violation (sig ("fwrite|%s|open-failed", enc_name [enc]), "%s", sf_strerror (NULL)) ; goto done ; }
-	set_opts (sf, 1, 0, 0, scale) ;
+	opt_type = type ; set_opts (sf, 1, 0, 0, scale) ;
 	if (vl_write (sf, type, 0, in, n) != n) vl_violation (sig ("fwrite|%s|%s|short-write", enc_name [enc], type_names [type]), "could not write %ld items", n) ;
 	INLIB (sf_close (sf)) ;
 	if (dev.len != n * bw) { vl_violation (sig ("fwrite|%s|%s|length", enc_name [enc], type_names [type]), "file has %lld bytes for %ld items", (long long) dev.len, n) ; goto done ; }
@@ -346,7 +368,7 @@ static void c02_float_file_read (int enc, int end, int type, int clip, int scale
 	md_set (&dev, bytes, n * bw) ;
 	sf = raw_open (SFM_READ, enc, end) ;
 	if (! sf) { vl_violation (sig ("fread|%s|open-failed", enc_name [enc]), "%s", sf_strerror (NULL)) ; goto done ; }
-	set_opts (sf, 1, clip, scale, -1) ;
+	opt_type = type ; set_opts (sf, 1, clip, scale, -1) ;
 	out = malloc (n * 8 + 8) ;
 	if (vl_read (sf, type, 0, out, n) != n)
 		vl_violation (sig ("fread|%s|%s|short-read", enc_name [enc], type_names [type]), "could not read %ld items", n) ;
@@ -422,6 +444,27 @@ static int enc_of_sub (int sub)
 	return -1 ;
 }
 
+/* every encoding's float / double write path with inputs beyond full scale and non-finite ones: what is stored without clipping is
+** unspecified, but the call accepts the items, stays inside the codec's tables and buffers (ASan) and the file closes and re-opens */
+static void c02_wild (const Fmt *f, int type, int norm, int clip)
+{	static const double wild [] = { 1.0001, 1.5, 3.0, 70000.0, 1e10, 1e38, -1.0001, -1.5, -3.0, -70000.0, -1e10, -1e38, 0.25, -0.25 } ;
+	enum { NW = sizeof (wild) / sizeof (wild [0]) } ; float fb [3 * NW + 8] ; double db [3 * NW + 8] ; int n = 0, ch = 1, B ; SF_INFO info ; SNDFILE *sf ; sf_count_t w ; long items ;
+	for (int rep = 0 ; rep < 3 ; rep++) for (int k = 0 ; k < NW ; k++) { db [n] = wild [k] * (norm ? 1.0 : 32767.0) ; fb [n] = (float) db [n] ; n ++ ; }
+	fb [n] = NAN ; db [n++] = NAN ; fb [n] = INFINITY ; db [n++] = INFINITY ; fb [n] = - INFINITY ; db [n++] = - INFINITY ; fb [n] = 0 ; db [n++] = 0 ;
+	md_reset (&dev) ; rt_info (&info, f, ch, fmt_default_rate (f)) ;
+	sf = md_open (&dev, SFM_WRITE, &info) ;
+	if (! sf) { vl_note ("open refused") ; vl_end (0, 0) ; return ; }
+	opt_type = type ; set_opts (sf, norm, clip, 0, -1) ;
+	B = fmt_block (f, ch, fmt_default_rate (f)) ; items = n ; (void) B ;
+	w = type == T_FLOAT ? vl_write (sf, T_FLOAT, 0, fb, items) : vl_write (sf, T_DOUBLE, 0, db, items) ;
+	if (w != items) vl_violation (sig ("wild|%s|%s|short-write", rt_fam (f), type_names [type]), "write of %ld items beyond full scale accepted %lld", items, (long long) w) ;
+	INLIB (sf_close (sf)) ;
+	md_rewind (&dev) ; rt_info_read (&info, f, ch, fmt_default_rate (f)) ; sf = md_open (&dev, SFM_READ, &info) ;
+	if (! sf) vl_violation (sig ("wild|%s|%s|reopen-failed", rt_fam (f), type_names [type]), "%s", sf_strerror (NULL)) ;
+	else { short back [3 * NW + 64] ; vl_read (sf, T_SHORT, 0, back, n) ; INLIB (sf_close (sf)) ; }
+	vl_end (1, md_hash (&dev)) ;
+}
+
 static void c02_cross (const Fmt *f, int wtype)
 {	int enc = enc_of_sub (f->format & SF_FORMAT_SUBMASK), w = enc_w [enc], n = 0 ; short sv [3000] ; SF_INFO info ; SNDFILE *sf ; void *in, *out ; long bad = 0 ; uint64_t oh = VL_H0 ;
 	for (int s = -520 ; s <= 520 ; s++) sv [n++] = (short) s ;
@@ -495,7 +538,7 @@ static void run_c02 (void)
 						if (vl_case ("C02 read enc=%s end=%s type=%s norm=%d", enc_name [enc], end_name [end], type_names [type], norm))
 						{	vl_root_count (enc_name [enc]) ; c02_read_int_file (enc, end, type, norm) ; }
 					for (int norm = fl ? 0 : 1 ; norm < 2 ; norm++)
-						for (int clip = 0 ; clip < (fl && enc != E_ULAW && enc != E_ALAW ? 2 : 1) ; clip++)
+						for (int clip = 0 ; clip < (fl ? 2 : 1) ; clip++)
 							if (vl_case ("C02 write enc=%s end=%s type=%s norm=%d clip=%d", enc_name [enc], end_name [end], type_names [type], norm, clip))
 							{	vl_root_count (enc_name [enc]) ; c02_write_int_file (enc, end, type, norm, clip) ; }
 					}
@@ -521,6 +564,13 @@ static void run_c02 (void)
 		for (int wt = 0 ; wt < 2 ; wt++)
 			if (vl_case ("C02 cross fmt=%s wtype=%s", f->name, wt ? "float" : "short"))
 			{	vl_root_count ("cross") ; c02_cross (f, wt ? T_FLOAT : T_SHORT) ; }
+		}
+	for (int fi = 0 ; fi < fmt_count ; fi++)
+	{	const Fmt *f = &fmt_list [fi] ;
+		if (f->needs_path || (f->format & SF_FORMAT_ENDMASK) == SF_ENDIAN_CPU || ! rt_accepts (f, 1, fmt_default_rate (f))) continue ;
+		for (int type = T_FLOAT ; type <= T_DOUBLE ; type++) for (int norm = 0 ; norm < 2 ; norm++) for (int clip = 0 ; clip < 2 ; clip++)
+			if (vl_case ("C02 wild fmt=%s type=%s norm=%d clip=%d", f->name, type_names [type], norm, clip))
+			{	vl_root_count ("wild") ; c02_wild (f, type, norm, clip) ; }
 		}
 }
 
